@@ -24,6 +24,10 @@ Gen4   == G("gen4",   "gen",  <<2, 3, 2, 2>>, TriTail)
 GeomsQuick    == <<Mps3, Mpsc3, Mpo2, Peps22, Pepo12, Gen4>>
 GeomsThorough == <<Mps3, Mps4, Mpsc3, Mpsc4, Mpo2, Mpo3, Peps22, Pepo12, Gen4>>
 GeomsSim      == <<Mps3, Mps4, Mpsc3, Mpsc4, Mpo2, Mpo3, Peps22, Peps23, Pepo12, Pepo22, Gen4>>
+Gids13 == {1, 3}
+Gids123 == {1, 2, 3}
+OpsN == {"N"}
+OpsNH == {"N", "H"}
 GeomsSwap     == <<Mps4>>
 GeomsMpo      == <<Mpo3>>
 =============================================================================
